@@ -12,7 +12,7 @@ func init() {
 	register(&PropDef{
 		ID:    "C14",
 		Pkgs:  []string{tr},
-		Claim: "Decides the structural part: on GOAWAY the client marks as unprocessed and closes exactly the streams with id in (lastStreamID, previous limit], the previous limit being the previous GOAWAY's id (or MaxUint32 for the first), read before it is replaced; the first GOAWAY makes the transport draining and no stream id is assigned while draining; the writer refuses queued stream creations once draining (orphaning them with the drain error); a stream is marked unprocessed only by GOAWAY, by RST_STREAM(REFUSED_STREAM) or when it was never sent; on the server the final GOAWAY carries the highest accepted stream id read under the stream-id mutex after the state became draining, the admission of a new stream (id recording, reachability check, hand-off) happens in one critical section of that mutex, the first GOAWAY carries MaxUint32 with a ping; the writer exits in draining mode only when no stream is left. Client and server transport state behind t.mu (connection state, stream table, GOAWAY reason/code/message, keepalive dormancy flag, server idle time) is accessed only with the mutex held and the mutex is balanced (released on every exit, never re-acquired while held, never released without a reaching acquire).",
+		Claim: "Decides the structural part: on GOAWAY the client marks as unprocessed and closes exactly the streams with id in (lastStreamID, previous limit], the previous limit being the previous GOAWAY's id (or MaxUint32 for the first), read before it is replaced; the first GOAWAY makes the transport draining and no stream id is assigned while draining; the writer refuses queued stream creations once draining (orphaning them with the drain error); a stream is marked unprocessed only by GOAWAY, by RST_STREAM(REFUSED_STREAM) or when it was never sent; on the server the final GOAWAY carries the highest accepted stream id read under the stream-id mutex after the state became draining, the admission of a new stream (id recording, reachability check, hand-off) happens in one critical section of that mutex, the first GOAWAY carries MaxUint32 with a ping; the writer exits in draining mode only when no stream is left. Client and server transport state behind t.mu (connection state, stream table, GOAWAY reason/code/message, keepalive dormancy flag, server idle time) is accessed only with the mutex held and the mutex is balanced (released on every exit, never re-acquired while held, never released without a reaching acquire). Client and server transport state behind the transport mutex is accessed under it with balanced locking; the first-GOAWAY test is on the GOAWAY channel; connection-error reasons are the stated ones.",
 		NotDecided:  []string{"races between stream creation and the two-phase GOAWAY as schedules", "that a transparently retried RPC is not executed twice by a misbehaving server"},
 		Assumptions: []string{"the client application retries unprocessed streams (decided under C18)"},
 		Technique:   "static analysis: dominating guards on go/ssa branch facts, ordering of loads and stores, who-may-write, must-lockset, value-origin",
